@@ -62,6 +62,9 @@ try:
     rc0, o0 = sh(run, cwd=wt, timeout=900)
     out["demo_without_change"] = "pass" if rc0 == 0 else "FAIL"
     rc, o = sh("git apply %s" % patch, cwd=wt)
+    if rc != 0:  # the tree moved on since the change was written: three-way
+        rc, o = sh("git apply -3 %s && ! git diff --name-only --diff-filter=U | grep -q ." % patch, cwd=wt)
+        out["applied_three_way"] = rc == 0
     out["applies"] = rc == 0
     if need_overlay:
         sh("/tmp/seedtools/overlay.sh %s" % wt)
@@ -85,6 +88,8 @@ assert rc == 0, o
 res = {}
 try:
     rc, o = sh("git apply %s" % patch, cwd=wt2)
+    if rc != 0:
+        rc, o = sh("git apply -3 %s && ! git diff --name-only --diff-filter=U | grep -q ." % patch, cwd=wt2)
     if rc != 0:
         res["error"] = "patch does not apply: " + o[-300:]
     else:
